@@ -28,7 +28,7 @@ class WorldC13(World):
     WALL = {'quick': 50, 'thorough': 560}
     STATE_CHANGING = ('mklist', 'new', 'attach', 'reorder', 'copy', 'reload')
     STATE_RULE = 'per species: (class, gas?, number of pressure adjustments, number of coverage models, shares its caller list)'
-    PROBES = ('gas-species-from-shared-list', 'nongas-after-gas-same-list', 'padj-disabled', 'padj-preattached',
+    PROBES = ('gas-species-from-shared-list', 'nongas-after-gas-same-list', 'padj-disabled', 'padj-preattached', 'padj-in-dict-form',
               'array-T-with-cov', 'two-or-more-models', 'reload-with-cov', 'reload-cycles>=2', 'copy-then-attach',
               'per-species-coverage-block', 'shomate-with-models', 'nasa9-with-models', 'reorder-with-two')
     REAL = ('pmutt.empirical.EmpiricalBase / GasPressureAdj', 'pmutt.empirical.nasa.Nasa / Nasa9 / SingleNasa9',
@@ -101,7 +101,7 @@ class WorldC13(World):
                 'id': len(self.sp), 'cls': cls, 'phase': rng.choice(PHASES), 'list': lid,
                 'padj': not (sw['disable_padj'] and rng.random() < 0.6),
                 'scale': [round(rng.uniform(0.5, 1.5), 4) for _ in range(3)],
-                'segments': rng.randint(1, 3)}}
+                'segments': rng.randint(1, 3), 'pdict': rng.random() < 0.25}}
         k = rng.choice(sorted(self.sp))
         kinds = (['eval'] * sw['w_eval'] + ['attach', 'reorder'] * sw['w_edit'] + ['copy'] * sw['w_copy'] +
                  ['reload'] * sw['w_reload'])
@@ -201,6 +201,15 @@ class WorldC13(World):
                 ctx.probe('padj-preattached')
             if gas and not a['padj']:
                 ctx.probe('padj-disabled')
+            shared = a['list']
+            if a.get('pdict') and gas and a['padj'] and any(d['k'] == 'P' for d in intended):
+                # the serialised form of the adjustment, as in a species record copied from to_dict() output: the
+                # constructor documents that it recognises it for a gas species
+                ctx.probe('padj-in-dict-form')
+                first = [d['k'] for d in intended].index('P')   # (only the first: a second one is the caller's own)
+                lst = [{'class': "<class 'pmutt.empirical.GasPressureAdj'>"} if i == first else m
+                       for i, m in enumerate(lst)]
+                shared = None
             sp = self.real(self._construct, a, co, lst, a['padj'], a['phase'], _what='%s constructor' % a['cls'])
             self.sp[a['id']] = sp
             self.bare[a['id']] = self._construct(a, co, None, True, None)
@@ -210,7 +219,7 @@ class WorldC13(World):
             T_low = co['segs'][0][0] if a['cls'] == 'Nasa9' else co['T_low']
             T_high = co['segs'][-1][1] if a['cls'] == 'Nasa9' else co['T_high']
             self.sref[a['id']] = {'cls': a['cls'], 'phase': a['phase'], 'gas': gas, 'models': models,
-                                  'from_list': a['list'], 'T_low': T_low, 'T_high': T_high, 'copied': False}
+                                  'from_list': shared, 'T_low': T_low, 'T_high': T_high, 'copied': False}
             out = len(models)
         elif name == 'attach':
             sp, r = self._get(a['id'])
